@@ -609,14 +609,27 @@ Proof.
   - destruct (lag_cast_exact b o Hb Ho ltac:(lia)) as [-> H]. lia.
 Qed.
 
+(* the four reasons for which addConsumerOffset drops a commit before it reaches the ring (unknown cluster, too old,
+   rejected group, no broker offset for the partition); otherwise the broker offset the lag is computed against *)
+Definition reaches_ring (cf : config) (now : Z) (st : state) (c g t p ts : Z) : option Z :=
+  match get st c with
+  | None => None
+  | Some cl =>
+      if too_old cf now ts then None
+      else if negb (cf_accept cf g) then None
+      else let '(boff, cnt) := get_broker_offset cl t p in
+           if cnt =? 0 then None else Some boff
+  end.
+
 Lemma aco_inv cf now st c cl g t p off order ts lb P :
   let N := cf_intervals cf in
   let i := Z.to_nat p in
   get st c = Some cl -> cinv N lb P cl ->
   (forall boff (app : bool) e, 0 <= p -> lb t p = Some boff -> in_i64 boff ->
      new_entry (mkCommit off order ts) (if app then Some (commit_lag boff off) else None) e -> P g t i e) ->
-  add_consumer_offset cf now st c g t p off order ts = Done st RNone \/
+  (reaches_ring cf now st c g t p ts = None /\ add_consumer_offset cf now st c g t p off order ts = Done st RNone) \/
   exists cl' boff w' app,
+    reaches_ring cf now st c g t p ts = Some boff /\
     add_consumer_offset cf now st c g t p off order ts = Done (set st c cl') RNone /\
     cinv N lb P cl' /\ cl_broker cl' = cl_broker cl /\
     lb t p = Some boff /\ in_i64 boff /\ 0 <= p /\
@@ -624,11 +637,11 @@ Lemma aco_inv cf now st c cl g t p off order ts lb P :
     ring_at N (cons_topic cl' g t) i = w' /\
     (forall g' t' j, (g' <> g \/ t' <> t \/ j <> i) -> ring_at N (cons_topic cl' g' t') j = ring_at N (cons_topic cl g' t') j).
 Proof.
-  intros N i Hc [Hb Hg] Hnew. unfold add_consumer_offset. rewrite Hc.
-  destruct (too_old cf now ts); [left; reflexivity|].
-  destruct (negb (cf_accept cf g)); [left; reflexivity|].
+  intros N i Hc [Hb Hg] Hnew. unfold add_consumer_offset, reaches_ring. rewrite Hc.
+  destruct (too_old cf now ts); [left; split; reflexivity|].
+  destruct (negb (cf_accept cf g)); [left; split; reflexivity|].
   destruct (get_broker_offset cl t p) as [boff cnt] eqn:Eg.
-  destruct (cnt =? 0) eqn:Ecnt; [left; reflexivity|].
+  destruct (cnt =? 0) eqn:Ecnt; [left; split; reflexivity|].
   right. apply gbo_spec in Eg; [|lia]. destruct Eg as (tl & r & Htl & Hp0 & Hr & Hlast & -> & Hlt).
   destruct (Hb t tl Htl) as [HFb HLb].
   assert (Hlbp : lb t p = Some boff).
@@ -662,7 +675,7 @@ Proof.
     apply Forall_forall. intros s Hs. destruct (ring_step_slots _ _ _ _ _ _ s Ers Hs) as [Hin|(e & -> & He)].
     - rewrite Forall_forall in HFw. apply HFw; exact Hin.
     - cbn. eapply Hnew; eauto. }
-  split; [reflexivity|]. split; [|split; [reflexivity|]].
+  split; [reflexivity|]. split; [reflexivity|]. split; [|split; [reflexivity|]].
   - split; [exact Hb|]. cbn [cl_broker cl_consumer]. intros g' grp0 Hg'.
     apply get_set_inv in Hg'. destruct Hg' as [[-> ->]|[Hne Hg']]; [|apply Hg; exact Hg'].
     destruct Hgrp as [Hnd Hgt]. split; [apply NoDup_keys_set; exact Hnd|].
@@ -1167,7 +1180,7 @@ Proof.
     destruct (get st c) as [cl|] eqn:Hc;
       [|exists st, RNone; split; [unfold add_consumer_offset; rewrite Hc; reflexivity|exact Hinv']].
     destruct (aco_inv cf now st c cl g t p off order ts (last_broker h' c) (commit_ok h' c) Hc (Hinv' c cl Hc))
-      as [Hstep|(cl' & boff & w' & app & Hstep & Hcl' & _)].
+      as [[_ Hstep]|(cl' & boff & w' & app & _ & Hstep & Hcl' & _)].
     + intros boff app e Hp0 Hlb Hboff (He1 & He2 & He3). cbn in He1, He2. split; [rewrite He1; exact Hwf|].
       destruct app; [|left; exact He3]. right.
       exists h, now, ts, [], boff. rewrite He1, He2. split; [rewrite Z2Nat.id by exact Hp0; reflexivity|].
@@ -1426,7 +1439,7 @@ Proof.
   destruct (get st c) as [cl|] eqn:Hc;
     [|unfold add_consumer_offset in Hstep; rewrite Hc in Hstep; injection Hstep as <- _; left; reflexivity].
   destruct (aco_inv cf now st c cl g t p off order ts (last_broker h c) (fun _ _ _ _ => True) Hc) as
-    [Hs|(cl' & boff & w1 & app & Hs & _ & _ & Hlb & Hboff & Hp0 & Hrs & Hw1 & _)].
+    [[_ Hs]|(cl' & boff & w1 & app & _ & Hs & _ & _ & Hlb & Hboff & Hp0 & Hrs & Hw1 & _)].
   - eapply cinv_impl; [reflexivity| |apply Hinv; exact Hc]. intros; exact I.
   - intros; exact I.
   - rewrite Hs in Hstep. injection Hstep as <- _. left; reflexivity.
@@ -1473,7 +1486,7 @@ Proof.
   - destruct (get st c0) as [cl0|] eqn:Hc0;
       [|unfold add_consumer_offset in Hstep; rewrite Hc0 in Hstep; injection Hstep as <- _; left; reflexivity].
     destruct (aco_inv cf now st c0 cl0 g0 t0 p0 off order ts (last_broker h c0) (fun _ _ _ _ => True) Hc0) as
-      [Hs|(cl' & boff & w1 & app & Hs & _ & _ & _ & _ & Hp00 & _ & _ & Hfr)].
+      [[_ Hs]|(cl' & boff & w1 & app & _ & Hs & _ & _ & _ & _ & Hp00 & _ & _ & Hfr)].
     + eapply cinv_impl; [reflexivity| |apply Hinv; exact Hc0]. intros; exact I.
     + intros; exact I.
     + rewrite Hs in Hstep. injection Hstep as <- _. left; reflexivity.
@@ -1572,3 +1585,219 @@ Lemma ex_extreme_ok :
       Done st (RConsumer [(1, [mkCpart [None; None; Some (mkCoff (-9223372036854775808) 1 100000 (Some 18446744073709551615))]
                                        [9223372036854775807] 0 0 18446744073709551615])]).
 Proof. split; [wf_tac|]. eexists _, _. split; [vm_compute; reflexivity|]. vm_compute. reflexivity. Qed.
+
+(* ================================================================================================ *)
+(* 5. exact provenance of every ring (used by the C02 lift in StorageWindows.v)                     *)
+(* ================================================================================================ *)
+
+(* exact effect of the removing requests on every ring; no invariant needed *)
+Lemma delete_topic_rings N st c cl t :
+  get st c = Some cl ->
+  exists cl', delete_topic st c t = Done (set st c cl') RNone /\
+    forall g t' j, ring_at N (cons_topic cl' g t') j =
+                   if t' =? t then new_ring N else ring_at N (cons_topic cl g t') j.
+Proof.
+  intros Hc. unfold delete_topic. rewrite Hc. eexists. split; [reflexivity|].
+  intros g t' j. unfold cons_topic at 1. cbn [cl_consumer]. rewrite get_map_vals.
+  destruct (get (cl_consumer cl) g) as [grp|] eqn:Egr; cbn [option_map g_topics].
+  - destruct (t' =? t) eqn:E.
+    + apply Z.eqb_eq in E. subst t'. rewrite get_remove_eq. apply ring_at_nil.
+    + apply Z.eqb_neq in E. rewrite get_remove_neq by congruence. unfold cons_topic. rewrite Egr. reflexivity.
+  - unfold cons_topic. rewrite Egr. rewrite ring_at_nil. destruct (t' =? t); reflexivity.
+Qed.
+
+Lemma delete_group_rings N st c cl g t :
+  get st c = Some cl ->
+  (delete_group st c g t = Done st RNone /\ get (cl_consumer cl) g = None) \/
+  exists cl', delete_group st c g t = Done (set st c cl') RNone /\
+    forall g' t' j, ring_at N (cons_topic cl' g' t') j =
+                    if (g' =? g) && ((t =? 0) || (t' =? t)) then new_ring N else ring_at N (cons_topic cl g' t') j.
+Proof.
+  intros Hc. unfold delete_group. rewrite Hc.
+  destruct (get (cl_consumer cl) g) as [grp|] eqn:Egr; [right|left; auto].
+  assert (Hrm : forall g' t' j (b : bool),
+            (g' = g -> b = false -> ring_at N (cons_topic cl g t') j = new_ring N) ->
+            ring_at N (cons_topic (mkCluster (cl_broker cl) (remove (cl_consumer cl) g)) g' t') j =
+            if (g' =? g) && b then new_ring N else ring_at N (cons_topic cl g' t') j).
+  { intros g' t' j b Hb. unfold cons_topic at 1. cbn [cl_consumer]. destruct (g' =? g) eqn:E.
+    - apply Z.eqb_eq in E. subst g'. rewrite get_remove_eq, ring_at_nil. destruct b; cbn; [reflexivity|].
+      symmetry. apply Hb; reflexivity.
+    - apply Z.eqb_neq in E. rewrite get_remove_neq by congruence. reflexivity. }
+  destruct (t =? 0) eqn:Et0.
+  - eexists. split; [reflexivity|]. intros g' t' j. cbn [orb]. apply Hrm. intros _ H; discriminate.
+  - destruct (remove (g_topics grp) t) as [|kv rest] eqn:Erm.
+    + eexists. split; [reflexivity|]. intros g' t' j. cbn [orb]. apply Hrm. intros _ Hne.
+      apply Z.eqb_neq in Hne. unfold cons_topic. rewrite Egr.
+      assert (Hn : get (g_topics grp) t' = None).
+      { rewrite <- (get_remove_neq (g_topics grp) t t') by congruence. rewrite Erm. reflexivity. }
+      rewrite Hn. apply ring_at_nil.
+    + rewrite <- Erm. eexists. split; [reflexivity|]. intros g' t' j. cbn [orb].
+      unfold cons_topic at 1. cbn [cl_consumer]. destruct (g' =? g) eqn:E; cbn [andb].
+      * apply Z.eqb_eq in E. subst g'. rewrite get_set_eq. cbn [g_topics]. destruct (t' =? t) eqn:E2.
+        -- apply Z.eqb_eq in E2. subst t'. rewrite get_remove_eq. apply ring_at_nil.
+        -- apply Z.eqb_neq in E2. rewrite get_remove_neq by congruence. unfold cons_topic. rewrite Egr. reflexivity.
+      * apply Z.eqb_neq in E. rewrite get_set_neq by congruence. reflexivity.
+Qed.
+
+Definition group_expired (cf : config) (now : Z) (st : state) (c g : Z) : bool :=
+  match get st c with
+  | Some cl => match get (cl_consumer cl) g with Some grp => expired cf now (g_last grp) | None => false end
+  | None => false
+  end.
+
+Lemma fetch_consumer_rings N cf now st c cl g :
+  get st c = Some cl ->
+  if group_expired cf now st c g
+  then exists cl', fetch_consumer cf now st c g = Done (set st c cl') RNil /\
+         forall g' t' j, ring_at N (cons_topic cl' g' t') j =
+                         if g' =? g then new_ring N else ring_at N (cons_topic cl g' t') j
+  else forall st' rep, fetch_consumer cf now st c g = Done st' rep -> st' = st.
+Proof.
+  intros Hc. unfold group_expired, fetch_consumer. rewrite Hc.
+  destruct (get (cl_consumer cl) g) as [grp|] eqn:Egr; [|intros st' rep H; congruence].
+  destruct (expired cf now (g_last grp)).
+  - eexists. split; [reflexivity|]. intros g' t' j. unfold cons_topic at 1. cbn [cl_consumer].
+    destruct (g' =? g) eqn:E.
+    + apply Z.eqb_eq in E. subst g'. rewrite get_remove_eq. apply ring_at_nil.
+    + apply Z.eqb_neq in E. rewrite get_remove_neq by congruence. reflexivity.
+  - intros st' rep H. destruct (fetch_topics_lags (cl_broker cl) _); congruence.
+Qed.
+
+(* the requests that remove the rings of a (cluster, group, topic) *)
+Definition resets (cf : config) (now : Z) (st : state) (c g t : Z) (r : req) : bool :=
+  match r with
+  | DeleteTopic c' t' => (c' =? c) && (t' =? t)
+  | DeleteGroup c' g' t' => (c' =? c) && (g' =? g) && ((t' =? 0) || (t =? t'))
+  | FetchConsumer c' g' => (c' =? c) && (g' =? g) && group_expired cf now st c g
+  | _ => false
+  end.
+
+(* every request other than a commit for (c,g,t,p) leaves that ring exactly as it was, or (the three removing
+   requests) puts the fresh all-empty ring in its place *)
+Theorem ring_frame_exact cf cls h st reps now r c g t p st' rep :
+  (1 <= cf_intervals cf)%nat -> wf_hist h -> wf_req r -> 0 <= p ->
+  run cf (init_state cls) h = Some (st, reps) ->
+  step cf now st r = Done st' rep ->
+  (forall off order ts, r <> SetConsumerOffset c g t p off order ts) ->
+  ring_of cf st' c g t p = if resets cf now st c g t r then new_ring (cf_intervals cf) else ring_of cf st c g t p.
+Proof.
+  intros HN Hwf Hr Hp0 Hrun Hstep Hnot. pose proof (run_reaches_hinv _ _ _ _ _ HN Hwf Hrun) as Hinv.
+  set (N := cf_intervals cf).
+  assert (Hset : forall c0 cl0 cl' (b : bool), get st c0 = Some cl0 -> st' = set st c0 cl' ->
+            (c0 = c -> ring_at N (cons_topic cl' g t) (Z.to_nat p) =
+                       if b then new_ring N else ring_at N (cons_topic cl0 g t) (Z.to_nat p)) ->
+            ring_of cf st' c g t p = if (c0 =? c) && b then new_ring N else ring_of cf st c g t p).
+  { intros c0 cl0 cl' b Hc0 -> Hk. destruct (c0 =? c) eqn:E.
+    - apply Z.eqb_eq in E. subst c0. rewrite ring_of_set_same. unfold ring_of. rewrite Hc0. cbn [andb]. apply Hk. reflexivity.
+    - apply Z.eqb_neq in E. cbn [andb]. apply ring_of_set_other. exact E. }
+  assert (Hsame : forall c0 cl0 cl', get st c0 = Some cl0 -> st' = set st c0 cl' ->
+            (c0 = c -> ring_at N (cons_topic cl' g t) (Z.to_nat p) = ring_at N (cons_topic cl0 g t) (Z.to_nat p)) ->
+            ring_of cf st' c g t p = ring_of cf st c g t p).
+  { intros c0 cl0 cl' Hc0 E Hk. rewrite (Hset c0 cl0 cl' false Hc0 E Hk). rewrite andb_false_r. reflexivity. }
+  assert (Hnone : forall c0 (b : bool), get st c0 = None -> st' = st ->
+            ring_of cf st' c g t p = if (c0 =? c) && b then new_ring N else ring_of cf st c g t p).
+  { intros c0 b Hc0 ->. destruct (c0 =? c) eqn:E; cbn [andb]; [|reflexivity]. apply Z.eqb_eq in E. subst c0.
+    destruct b; [|reflexivity]. unfold ring_of. rewrite Hc0. reflexivity. }
+  destruct r as [c0 t0 p0 cnt off|c0 g0 t0 p0 off order ts|c0 g0 t0 p0 owner client|c0 g0|c0 t0|c0 g0 t0| |c0|c0|c0 g0|c0 t0|c0 t0];
+    cbn [step] in Hstep; cbn [resets].
+  - destruct Hr as [Hp Hoff]. destruct (get st c0) as [cl0|] eqn:Hc0;
+      [|unfold add_broker_offset in Hstep; rewrite Hc0 in Hstep; injection Hstep as <- _; reflexivity].
+    destruct (abo_inv cf st c0 cl0 t0 p0 cnt off (last_broker h c0)
+                (fun t' p' => if (t' =? t0) && (p' =? p0) then Some off else last_broker h c0 t' p')
+                (commit_ok h c0) HN Hc0 (Hinv c0 cl0 Hc0) Hp Hoff) as (cl' & Hs & Hcons & _).
+    + rewrite !Z.eqb_refl. reflexivity.
+    + intros t' p' Hd. destruct (t' =? t0) eqn:E1; [|reflexivity]. destruct (p' =? p0) eqn:E2; [lia|reflexivity].
+    + rewrite Hs in Hstep. injection Hstep as <- _. eapply Hsame; [exact Hc0|reflexivity|].
+      intros _. unfold cons_topic. rewrite Hcons. reflexivity.
+  - destruct (get st c0) as [cl0|] eqn:Hc0;
+      [|unfold add_consumer_offset in Hstep; rewrite Hc0 in Hstep; injection Hstep as <- _; reflexivity].
+    destruct (aco_inv cf now st c0 cl0 g0 t0 p0 off order ts (last_broker h c0) (fun _ _ _ _ => True) Hc0) as
+      [[_ Hs]|(cl' & boff & w1 & app & _ & Hs & _ & _ & _ & _ & Hp00 & _ & _ & Hfr)].
+    + eapply cinv_impl; [reflexivity| |apply Hinv; exact Hc0]. intros; exact I.
+    + intros; exact I.
+    + rewrite Hs in Hstep. injection Hstep as <- _. reflexivity.
+    + rewrite Hs in Hstep. injection Hstep as <- _. eapply Hsame; [exact Hc0|reflexivity|].
+      intros ->. apply Hfr.
+      destruct (Z.eq_dec g g0) as [->|]; [|left; assumption]. destruct (Z.eq_dec t t0) as [->|]; [|right; left; assumption].
+      right. right. intros E. apply (Hnot off order ts). f_equal. lia.
+  - destruct (get st c0) as [cl0|] eqn:Hc0;
+      [|unfold add_consumer_owner in Hstep; rewrite Hc0 in Hstep; injection Hstep as <- _; reflexivity].
+    destruct (aown_inv cf st c0 cl0 g0 t0 p0 owner client _ _ Hc0 (Hinv c0 cl0 Hc0)) as [Hs|(cl' & Hs & _ & _ & Hfr)];
+      rewrite Hs in Hstep; injection Hstep as <- _; [reflexivity|].
+    eapply Hsame; [exact Hc0|reflexivity|]. intros _. apply Hfr.
+  - destruct (get st c0) as [cl0|] eqn:Hc0;
+      [|unfold clear_consumer_owners in Hstep; rewrite Hc0 in Hstep; injection Hstep as <- _; reflexivity].
+    destruct (clear_inv cf st c0 cl0 g0 _ _ Hc0 (Hinv c0 cl0 Hc0)) as [Hs|(cl' & Hs & _ & _ & Hfr)];
+      rewrite Hs in Hstep; injection Hstep as <- _; [reflexivity|].
+    eapply Hsame; [exact Hc0|reflexivity|]. intros _. apply Hfr.
+  - (* DeleteTopic *)
+    destruct (get st c0) as [cl0|] eqn:Hc0.
+    + destruct (delete_topic_rings N st c0 cl0 t0 Hc0) as (cl' & Hs & Hfr).
+      rewrite Hs in Hstep. injection Hstep as <- _.
+      rewrite (Z.eqb_sym t0 t). eapply Hset; [exact Hc0|reflexivity|]. intros _. apply Hfr.
+    + unfold delete_topic in Hstep. rewrite Hc0 in Hstep. injection Hstep as <- _. apply Hnone; [exact Hc0|reflexivity].
+  - (* DeleteGroup *)
+    destruct (get st c0) as [cl0|] eqn:Hc0.
+    + destruct (delete_group_rings N st c0 cl0 g0 t0 Hc0) as [[Hs Hnog]|(cl' & Hs & Hfr)];
+        rewrite Hs in Hstep; injection Hstep as <- _.
+      * destruct (c0 =? c) eqn:Ec; cbn [andb]; [|reflexivity]. apply Z.eqb_eq in Ec. subst c0.
+        destruct (g0 =? g) eqn:Eg; cbn [andb]; [|reflexivity]. apply Z.eqb_eq in Eg. subst g0.
+        destruct ((t0 =? 0) || (t =? t0)); [|reflexivity].
+        unfold ring_of. rewrite Hc0. unfold cons_topic. rewrite Hnog. apply ring_at_nil.
+      * rewrite <- andb_assoc. eapply Hset; [exact Hc0|reflexivity|]. intros _.
+        rewrite Hfr. rewrite (Z.eqb_sym g g0). reflexivity.
+    + unfold delete_group in Hstep. rewrite Hc0 in Hstep. injection Hstep as <- _.
+      rewrite <- andb_assoc. apply Hnone; [exact Hc0|reflexivity].
+  - injection Hstep as <- _. reflexivity.
+  - destruct (get st c0); injection Hstep as <- _; reflexivity.
+  - destruct (get st c0); injection Hstep as <- _; reflexivity.
+  - (* FetchConsumer *)
+    destruct (get st c0) as [cl0|] eqn:Hc0.
+    + pose proof (fetch_consumer_rings N cf now st c0 cl0 g0 Hc0) as Hf.
+      destruct (c0 =? c) eqn:Ec; cbn [andb].
+      * apply Z.eqb_eq in Ec. subst c0. destruct (g0 =? g) eqn:Eg; cbn [andb].
+        -- apply Z.eqb_eq in Eg. subst g0. destruct (group_expired cf now st c g).
+           ++ destruct Hf as (cl' & Hs & Hfr). rewrite Hs in Hstep. injection Hstep as <- _.
+              rewrite ring_of_set_same. rewrite Hfr, Z.eqb_refl. reflexivity.
+           ++ rewrite (Hf st' rep Hstep). reflexivity.
+        -- apply Z.eqb_neq in Eg. destruct (group_expired cf now st c g0).
+           ++ destruct Hf as (cl' & Hs & Hfr). rewrite Hs in Hstep. injection Hstep as <- _.
+              rewrite ring_of_set_same. rewrite Hfr. destruct (g =? g0) eqn:E; [lia|]. unfold ring_of. rewrite Hc0. reflexivity.
+           ++ rewrite (Hf st' rep Hstep). reflexivity.
+      * apply Z.eqb_neq in Ec. destruct (group_expired cf now st c0 g0).
+        -- destruct Hf as (cl' & Hs & _). rewrite Hs in Hstep. injection Hstep as <- _. apply ring_of_set_other. exact Ec.
+        -- rewrite (Hf st' rep Hstep). reflexivity.
+    + unfold fetch_consumer in Hstep. rewrite Hc0 in Hstep. injection Hstep as <- _.
+      destruct ((c0 =? c) && (g0 =? g)) eqn:E; cbn [andb]; [|reflexivity].
+      apply andb_true_iff in E. destruct E as [Ec _]. apply Z.eqb_eq in Ec. subst c0.
+      unfold group_expired. rewrite Hc0. reflexivity.
+  - unfold fetch_topic in Hstep. destruct (get st c0) as [cl0|]; [destruct (get (cl_broker cl0) t0)|];
+      injection Hstep as <- _; reflexivity.
+  - unfold fetch_consumers_for_topic in Hstep. destruct (get st c0); injection Hstep as <- _; reflexivity.
+Qed.
+
+(* a commit for (c,g,t,p): dropped before the ring (state unchanged), or handed to ring_step with the lag computed
+   against the last recorded broker offset *)
+Theorem commit_ring_step cf cls h st reps now c g t p off order ts st' rep :
+  (1 <= cf_intervals cf)%nat -> wf_hist h ->
+  run cf (init_state cls) h = Some (st, reps) ->
+  step cf now st (SetConsumerOffset c g t p off order ts) = Done st' rep ->
+  match reaches_ring cf now st c g t p ts with
+  | None => st' = st
+  | Some boff =>
+      0 <= p /\ last_broker h c t p = Some boff /\
+      ring_of cf st' c g t p =
+      fst (ring_step (cf_min_distance cf) (ring_of cf st c g t p) (mkCommit off order ts) (commit_lag boff off))
+  end.
+Proof.
+  intros HN Hwf Hrun Hstep. pose proof (run_reaches_hinv _ _ _ _ _ HN Hwf Hrun) as Hinv. cbn [step] in Hstep.
+  destruct (get st c) as [cl|] eqn:Hc.
+  - destruct (aco_inv cf now st c cl g t p off order ts (last_broker h c) (fun _ _ _ _ => True) Hc) as
+      [[Hr Hs]|(cl' & boff & w1 & app & Hr & Hs & _ & _ & Hlb & _ & Hp0 & Hrs & Hw1 & _)].
+    + eapply cinv_impl; [reflexivity| |apply Hinv; exact Hc]. intros; exact I.
+    + intros; exact I.
+    + rewrite Hr. rewrite Hs in Hstep. injection Hstep as <- _. reflexivity.
+    + rewrite Hr. rewrite Hs in Hstep. injection Hstep as <- _. split; [exact Hp0|]. split; [exact Hlb|].
+      rewrite ring_of_set_same, Hw1. unfold ring_of. rewrite Hc, Hrs. reflexivity.
+  - unfold reaches_ring. rewrite Hc. unfold add_consumer_offset in Hstep. rewrite Hc in Hstep. injection Hstep as <- _. reflexivity.
+Qed.
